@@ -173,6 +173,10 @@ bld('AddToPlaylist::at', ['exists|p: usize| r.cmd_spec() == #[trigger] (%s)' % W
 
 # closed accessor spec fns (the parameters a chained builder keeps; public types only)
 ACC = """
+#[verifier::external_body]
+fn vx_arc_str(a: &std::sync::Arc<str>) -> (r: &str) ensures r@ == arc_str_view(*a) { a }
+#[verifier::external_body]
+fn vx_arc_eq(a: &std::sync::Arc<str>, b: &str) -> (r: bool) ensures r == (arc_str_view(*a) == b@) { a.as_ref() == b }
 impl QueueRange { pub closed spec fn rng(&self) -> SongRange { match self.0 { SongOrSongRange::Range(x) => x, _ => arbitrary() } } }
 impl Shuffle { pub closed spec fn rng(&self) -> SongRange { match self.0 { Some(x) => x, _ => arbitrary() } } }
 impl<'a> Add<'a> { pub closed spec fn uri_view(&self) -> Seq<char> { self.uri@ } }
@@ -260,6 +264,42 @@ RESP['Add'] = inline('req::<u64>(cv, "Id"@) == Some(x.0)', 'req::<u64>(cv, "Id"@
                      extra='  mutparam frame\n  tokens N17 ".map(SongId)" ".map(|vx_x: u64| -> (vx_r: SongId) ensures vx_r == SongId(vx_x) { SongId(vx_x) })"')
 for s_ in ('Update', 'Rescan'):
     RESP[s_] = inline('req::<u64>(cv, "updating_db"@) == Some(x)', 'req::<u64>(cv, "updating_db"@) is None', extra='  mutparam frame')
+
+# [C16 oracle] `channels` answers one `channel: <name>` line per channel; every line must be one
+LOOP_COMMON = """  attr <<<
+    #[verifier::exec_allows_no_decreases_clause]
+  >>>
+  forloop 0
+  prologue <<<
+        let ghost vx_cv = frame.cv();
+        let ghost mut vx_n: int = 0;
+        proof { reveal_strlit("%(key)s"); }
+  >>>
+  loop 0 pre <<<
+        proof { assert(vx_cv.skip(0) =~= vx_cv); }
+  >>>
+  loop 0 mid <<<
+            proof { assert(vx_cv.skip(vx_n)[0] == vx_cv[vx_n]); assert(vx_cv.skip(vx_n).skip(1) =~= vx_cv.skip(vx_n + 1)); }
+  >>>
+  loop 0 tail <<<
+            proof { vx_n = vx_n + 1; }
+  >>>"""
+RESP['ListChannels'] = inline(
+    'x@.len() == cv.len() && forall|i: int| 0 <= i < cv.len() ==> (#[trigger] cv[i]).0 == "channel"@ && x@[i]@ == cv[i].1',
+    'exists|i: int| 0 <= i < cv.len() && (#[trigger] cv[i]).0 != "channel"@',
+    extra="""  tokens N15 "let mut response = Vec::with_capacity(" "let mut response: Vec<String> = Vec::with_capacity("
+  tokens N10 "&*key != \\"channel\\"" "!vx_arc_eq(&key, \\"channel\\")"
+  tokens N10 "&*key)" "vx_arc_str(&key))"
+""" + LOOP_COMMON % dict(key='channel') + """
+  loop 0 spec <<<
+            invariant
+                0 <= vx_n <= vx_cv.len(), vx_it.rest() == vx_cv.skip(vx_n), vx_cv == frame.cv(),
+                response@.len() == vx_n, forall|i: int| 0 <= i < vx_n ==> (#[trigger] vx_cv[i]).0 == "channel"@ && response@[i]@ == vx_cv[i].1,
+            ensures vx_n == vx_cv.len(),
+  >>>
+  before 0 "return Err(TypedResponseError::unexpected_field" <<<
+                proof { assert(vx_cv[vx_n].0 != "channel"@); }
+  >>>""")
 
 def resp_members(c):
     """resp_ok / resp_err members + the directives of the `response` fn"""
